@@ -164,7 +164,8 @@ func findFunctionCallViolation(
 	ctx *testOnlyContext,
 	call *ast.CallExpr,
 ) *TestOnlyViolation {
-	switch fun := call.Fun.(type) {
+	// a parenthesised callee, (pkg.Func)() or (obj.Method)(), is the same call
+	switch fun := ast.Unparen(call.Fun).(type) {
 	case *ast.Ident:
 		// Direct function call: CreateMockData()
 		funcName := fun.Name
